@@ -11,6 +11,7 @@ import (
 	"os"
 	"os/exec"
 	"path/filepath"
+	"regexp"
 	"strings"
 	"time"
 
@@ -137,6 +138,42 @@ var c02seeds = []string{
 	"x: div(1, 0)\ny: 1 / 0\nz: mod(5, 0)\n",
 }
 
+var c02bigNums = []string{"0", "1", "-1", "2", "255", "256", "65536", "1000000", "1000001", "2147483647", "2147483648", "4294967295", "4294967296",
+	"9223372036854775807", "9223372036854775808", "9223372036854775809", "18446744073709551615", "18446744073709551616", "-9223372036854775808", "-9223372036854775809",
+	"0x7fff_ffff_ffff_ffff", "0x8000_0000_0000_0000", "0xffff_ffff_ffff_ffff", "1e3", "1e19", "1e400", "0.5", "-0.5", "1.0", "9_223_372_036_854_775_808", "340282366920938463463374607431768211456"}
+
+var c02templates = []string{
+	`x: "ab" * $N`, `x: $N * "ab"`, `x: 'ab' * $N`, `x: $N * 'ab'`, `x: [1, 2] * $N`, `x: $N * [1]`, `n: $N` + "\n" + `x: "a" * n`, `n: $N` + "\n" + `x: n * [1]`,
+	`import "strings"` + "\n" + `x: strings.Repeat("a", $N)`, `import "list"` + "\n" + `x: list.Repeat([1], $N)`, `import "list"` + "\n" + `x: list.Range(0, $N, 1)`,
+	`import "list"` + "\n" + `x: list.Range(0, 10, $N)`, `import "list"` + "\n" + `x: list.Take([1, 2, 3], $N)`, `import "list"` + "\n" + `x: list.Drop([1, 2, 3], $N)`,
+	`import "list"` + "\n" + `x: list.Slice([1, 2, 3], $N, $M)`, `import "list"` + "\n" + `x: list.FlattenN([[1, [2]]], $N)`,
+	`x: [1, 2, 3][$N]`, `x: "abc"[$N]`, `import "strings"` + "\n" + `x: strings.SliceRunes("héllo", $N, $M)`, `import "strings"` + "\n" + `x: strings.ByteSlice("hello", $N, $M)`,
+	`import "strings"` + "\n" + `x: strings.ByteAt("hello", $N)`, `import "strings"` + "\n" + `x: strings.SplitN("a,b,c", ",", $N)`, `import "strings"` + "\n" + `x: strings.Replace("aaa", "a", "b", $N)`,
+	`import "strconv"` + "\n" + `x: strconv.FormatInt($N, $M)`, `import "strconv"` + "\n" + `x: strconv.ParseInt("12", $N, $M)`, `import "strconv"` + "\n" + `x: strconv.FormatFloat(1.5, 102, $N, $M)`,
+	`import "math"` + "\n" + `x: math.Pow($N, $M)`, `import "math"` + "\n" + `x: math.Exp2($N)`, `import "math"` + "\n" + `x: math.Log($N)`, `import "math"` + "\n" + `x: math.Sqrt($N)`,
+	`import "math/bits"` + "\n" + `x: bits.Lsh($N, $M)`, `import "math/bits"` + "\n" + `x: bits.Rsh($N, $M)`, `import "math/bits"` + "\n" + `x: bits.At($N, $M)`, `import "math/bits"` + "\n" + `x: bits.Set($N, $M, 1)`,
+	`import "time"` + "\n" + `x: time.Unix($N, $M)`, `import "time"` + "\n" + `x: time.Duration($N)`, `import "encoding/base64"` + "\n" + `x: base64.Encode(null, "a" * $N)`,
+	`x: div($N, $M)`, `x: mod($N, $M)`, `x: quo($N, $M)`, `x: rem($N, $M)`, `x: $N / $M`, `x: $N * $M`, `x: $N + $M`, `x: $N - $M`, `x: -$N`, `x: len("a" * $N)`,
+	`import "text/tabwriter"` + "\n" + `x: tabwriter.Write("a	b" * $N)`, `import "net"` + "\n" + `x: net.IPCIDR("10.0.0.0/$N")`, `import "uuid"` + "\n" + `x: uuid.FromInt($N)`,
+	`import "list"` + "\n" + `x: list.MinItems([1], $N)`, `import "struct"` + "\n" + `x: {a: 1} & struct.MaxFields($N)`, `import "strings"` + "\n" + `x: "ab" & strings.MinRunes($N)`,
+	`x: [...int] & [1, 2]` + "\n" + `y: len(x) * $N`, `x: >=$N & <=$M & int`, `x: matchN($N, [int, string]) & 1`,
+}
+
+// c02boundary instantiates an operator/builtin template with boundary magnitudes.
+func c02boundary(r *rand.Rand) string {
+	t := c02templates[r.IntN(len(c02templates))]
+	nums := c02bigNums
+	for _, slow := range []string{"list.Range", "list.Repeat", "bits.Set", "bits.Lsh", "strconv.FormatFloat"} {
+		// recorded unbounded builtins: each huge argument costs a 30 s watchdog, so they get one only now and then
+		if strings.Contains(t, slow) && r.IntN(16) != 0 {
+			nums = c02bigNums[:8]
+		}
+	}
+	t = strings.ReplaceAll(t, "$N", nums[r.IntN(len(nums))])
+	t = strings.ReplaceAll(t, "$M", nums[r.IntN(len(nums))])
+	return t + "\n"
+}
+
 func c02deep(r *rand.Rand) string {
 	n := 200 + r.IntN(1500)
 	switch r.IntN(7) {
@@ -159,7 +196,7 @@ func c02deep(r *rand.Rand) string {
 
 func init() {
 	register("C02", "exploration", func(c *Ctx) {
-		c.Rule = "inputs <= 4 KiB: byte/token mutations of the frozen corpus, grammar token soups, PRNG programs of the core fragment (incl. erroneous ones), meaning-preserving rearrangements of evaluator testdata files (duplicated conjuncts, wrapped embeddings … – the shapes that revive fixed crash regressions), deep nestings / long chains, hand-written adversarial seeds. Each input runs parse → build → Validate → Validate(Concrete) → Syntax(Final|All|default)+format → MarshalJSON → yaml.Encode (+ Unify/FillPath on the value) twice in one worker process (fresh contexts) and once more in a second process; monitors: process fate (write-ahead protocol identifies the input of a fatal error), 30 s watchdog per input re-confirmed alone with 90 s, 6 GiB address-space limit, recover() around every case; output digests must agree. A sample goes through the real cue binary (exit status 0/1, no panic text). Non-trivial = distinct input that got past the parser."
+		c.Rule = "inputs <= 4 KiB: byte/token mutations of the frozen corpus, grammar token soups, PRNG programs of the core fragment (incl. erroneous ones), meaning-preserving rearrangements of evaluator testdata files (duplicated conjuncts, wrapped embeddings … – the shapes that revive fixed crash regressions), deep nestings / long chains, hand-written adversarial seeds. Each input runs parse → build → Validate → Validate(Concrete) → Syntax(Final|All|default)+format → MarshalJSON → yaml.Encode (+ Unify/FillPath on the value) twice in one worker process (fresh contexts) and once more in a second process; monitors: process fate (write-ahead protocol identifies the input of a fatal error), 20 s watchdog per input re-confirmed alone with 90 s, 6 GiB address-space limit, recover() around every case; output digests must agree. A sample goes through the real cue binary (exit status 0/1, no panic text). Non-trivial = distinct input that got past the parser."
 		c.Assume = []string{"'bounded time and memory' is decided against a fixed envelope for inputs <= 4 KiB, not asymptotically", "known crash sites are matched by call-site signature (innermost three cuelang.org/go frames), known hangs by input"}
 		if c.Replay != nil {
 			src, _ := c.Replay["input"].(string)
@@ -187,9 +224,9 @@ func init() {
 		for i, s := range c02seeds {
 			add(fmt.Sprintf("seed%d", i), s, "adversarial-seed")
 		}
-		nMut := c.N(5000, 150000)
+		nMut := c.N(4000, 150000)
 		nGen := c.N(2500, 60000)
-		nRearr := c.N(1500, 20000)
+		nRearr := c.N(1200, 20000)
 		r := c.RNG("inputs")
 		for i := 0; i < nMut; i++ {
 			switch x := r.IntN(10); {
@@ -205,6 +242,9 @@ func init() {
 		}
 		for i := 0; i < nGen; i++ {
 			add(fmt.Sprintf("g%d", i), gen.Program(r), "generated")
+		}
+		for i := 0; i < c.N(2000, 40000); i++ {
+			add(fmt.Sprintf("b%d", i), c02boundary(r), "boundary-magnitudes")
 		}
 		// rearranged evaluator testdata (frozen stream: independent of the seed)
 		var evalFiles []corpusFile
@@ -229,12 +269,19 @@ func init() {
 				}
 			}()
 		}
+		if only := os.Getenv("VERIF_C02_ONLY"); only != "" { // calibration aid: restrict to one input class
+			for id := range inputs {
+				if !strings.HasPrefix(class[id], only) {
+					delete(inputs, id)
+				}
+			}
+		}
 		var cases []bcase
 		for id, src := range inputs {
 			cases = append(cases, bcase{ID: id, Op: "c02pipe", Src: src, Args: map[string]string{"api": "1"}})
 		}
 		c.Set("inputs", len(cases))
-		res := c.RunBatch(cases, 30*time.Second)
+		res := c.RunBatch(cases, 20*time.Second)
 		// second process: a sample of the inputs again (cross-process repeatability)
 		var again []bcase
 		for _, cs := range cases {
@@ -292,8 +339,16 @@ func c02judge(c *Ctx, inputs, class map[string]string, res, res2 map[string]*bre
 			c.Violate("C02|panic|"+r.Site, fmt.Sprintf("panic escapes the API: %s\n  at %s\n  input: %s", firstLine(r.Crash), r.Site, trunc9(src, 300)), rp)
 		case "crash":
 			rp["crash"] = r.Crash
+			if k := c02resourceKey(class[id], src); k != "" && (strings.Contains(r.Crash, "out of memory") || strings.Contains(r.Crash, "cannot allocate") || r.Crash == "" || strings.Contains(r.Crash, "signal: killed")) {
+				c.Violate(k, fmt.Sprintf("process dies of memory exhaustion: %s\n  input: %s", firstLine(r.Crash), trunc9(src, 200)), rp)
+				continue
+			}
 			c.Violate("C02|crash|"+r.Site, fmt.Sprintf("process dies: %s\n  at %s\n  input: %s", firstLine(r.Crash), r.Site, trunc9(src, 300)), rp)
 		case "timeout":
+			if k := c02resourceKey(class[id], src); k != "" && c.IsKnown(k) {
+				c.Violate(k, "recorded unbounded builtin", rp)
+				continue
+			}
 			if cl, ok := strings.CutPrefix(class[id], "rearranged-testdata:"); ok && c.IsKnown("C02|timeout|rearranged:"+cl) {
 				// a recorded hang: no need to spend another 90 s re-confirming it
 				c.Violate("C02|timeout|rearranged:"+cl, "recorded hang", rp)
@@ -316,18 +371,39 @@ func c02judge(c *Ctx, inputs, class map[string]string, res, res2 map[string]*bre
 				c.Count("inconclusive_cases", 1)
 			case r.Status == "timeout":
 				tkey := "C02|timeout|" + monHash(cs.Src)
+				if k := c02resourceKey(class[cs.ID], cs.Src); k != "" {
+					tkey = k
+				}
 				if cl, ok := strings.CutPrefix(class[cs.ID], "rearranged-testdata:"); ok {
 					tkey = "C02|timeout|rearranged:" + cl // a hang is tied to the testdata file that was rearranged
 				}
 				c.Violate(tkey, fmt.Sprintf("pipeline does not finish within 90 s on a %d byte input (re-confirmed alone): %s", len(cs.Src), trunc9(cs.Src, 300)), rp)
 			case r.Status == "crash" || r.Status == "panic":
 				rp["crash"] = r.Crash
+				if k := c02resourceKey(class[cs.ID], cs.Src); k != "" && strings.Contains(r.Crash, "out of memory") {
+					c.Violate(k, "process dies of memory exhaustion: "+trunc9(cs.Src, 200), rp)
+					continue
+				}
 				c.Violate("C02|"+r.Status+"|"+r.Site, fmt.Sprintf("process dies: %s at %s", firstLine(r.Crash), r.Site), rp)
 			default:
 				c.Count("timeouts_not_reproduced", 1)
 			}
 		}
 	}
+}
+
+var c02callRe = regexp.MustCompile(`([a-z]+\.[A-Z][A-Za-z0-9]*)\(`)
+
+// c02resourceKey: for the boundary-magnitude stream a hang or an out-of-memory death is attributed to the
+// builtin that was given the huge argument (one recorded finding per unbounded builtin).
+func c02resourceKey(class, src string) string {
+	if class != "boundary-magnitudes" {
+		return ""
+	}
+	if m := c02callRe.FindStringSubmatch(src); m != nil {
+		return "C02|unbounded-builtin|" + m[1]
+	}
+	return ""
 }
 
 func firstLine(s string) string {
